@@ -994,6 +994,9 @@ pub fn run(prop: &str, thorough: bool) -> i32 {
     if prop == "C05" {
         crate::store_pin::counterless_batches(&mut r, "C05");
     }
+    if matches!(prop, "C01" | "C03" | "C07") {
+        channel_rotation_grid(&mut r, if prop == "C01" { "C01" } else if prop == "C03" { "C03" } else { "C07" });
+    }
     if prop == "C06" {
         submit_cost_grid(&mut r);
         // the lifecycle also has to work on the stores that deployed contracts already hold
@@ -1040,4 +1043,90 @@ fn submit_cost_grid(r: &mut Runner) {
     r.notes.push(format!("storage records read by SubmitBatch (seed, requesters, reads, ok): {:?}", rows));
     let n = rows.len() as u64;
     r.grid("c06-submit-cost: storage reads of SubmitBatch against the number of requesters of the batch", n, 2, ok_rows.len() as u64, n - ok_rows.len() as u64, vec![json!({"seed": "crowd", "requesters": 370})], viols);
+}
+
+/// Channel rotation. IBC numbers the packets of every channel from 1, the contract files its transfers under
+/// the bare sequence. After the admin moves the configuration to a second channel, acknowledgements of the
+/// old channel are ignored (as they must be), so records of old packets linger; the first transfers on the new
+/// channel reuse their sequence numbers. Whatever the contract does with the stale records, a transfer of the
+/// new channel that fails must be re-sent with its own amount, denom and receiver — not with those of the
+/// record that happened to carry the same number. Scripted with every assignment of {held, acknowledged} to
+/// the two old packets and {timeout, error ack} to the new ones.
+fn channel_rotation_grid(r: &mut Runner, prop: &'static str) {
+    use mwsim::explore::viol;
+    use serde_json::json;
+    let k = K::k0();
+    let mut n = 0u64;
+    let mut good = 0u64;
+    let mut viols = vec![];
+    let n1 = n20(&k, "n1");
+    let staker = n20(&k, "staker");
+    for old_acked in 0..4u8 {
+        for fail_kind in [1u8, 2] {
+            for which_new in 0..2usize {
+                let Some(seed) = try_seed(|| seed_resumed(&k)) else { continue };
+                let mut w = seed.w.clone();
+                let lst = w.lst_denom();
+                w.fund(&u(1), 10_000);
+                w.fund(&u(2), 10_000);
+                let case = json!({"old_packets_acknowledged_before_the_move": old_acked, "failure": if fail_kind == 1 { "error ack" } else { "timeout" }, "failing_new_packet": which_new});
+                // two stakes on the first channel: packets 1 and 2 (staked asset to the staker)
+                let o1 = w.exec(&u(1), ExecuteMsg::LiquidStake { mint_to: None, transfer_to_native_chain: None, expected_mint_amount: None }, &[(sd(), 1_000)]);
+                let o2 = w.exec(&u(1), ExecuteMsg::LiquidStake { mint_to: None, transfer_to_native_chain: None, expected_mint_amount: None }, &[(sd(), 2_000)]);
+                if !o1.ok || !o2.ok || o1.new_packets != vec![1] || o2.new_packets != vec![2] {
+                    continue;
+                }
+                for (i, seq) in [1u64, 2].iter().enumerate() {
+                    if old_acked & (1 << i) != 0 {
+                        w.outcome(*seq, 0);
+                    }
+                }
+                // somebody queues LST, so that the contract holds LST that is not the new delivery's
+                let minted = w.bal(&u(1), &lst);
+                let ou = w.exec(&u(1), ExecuteMsg::LiquidUnstake {}, &[(lst.clone(), minted / 3)]);
+                // the admin moves to the second channel
+                let mut pc = instantiate_msg(&k).protocol_chain_config;
+                pc.ibc_channel_id = ALT_CHANNEL.to_string();
+                let oc = w.exec(&adm(), ExecuteMsg::UpdateConfig { native_chain_config: None, protocol_chain_config: Some(pc), protocol_fee_config: None, monitors: None, batch_period: None }, &[]);
+                if !ou.ok || !oc.ok {
+                    continue;
+                }
+                // late acknowledgements of the old channel (ignored by the contract: another channel)
+                for seq in [1u64, 2] {
+                    if w.ibc.flight.contains_key(&seq) {
+                        w.outcome(seq, 0);
+                    }
+                }
+                // a stake on the new channel with the LST delivered to a native account: packets 1 (staked asset)
+                // and 2 (LST) of the new channel
+                let o3 = w.exec(&u(2), ExecuteMsg::LiquidStake { mint_to: Some(n1.clone()), transfer_to_native_chain: Some(true), expected_mint_amount: None }, &[(sd(), 500)]);
+                n += 1;
+                if !o3.ok || o3.new_packets.len() != 2 {
+                    viols.push((viol(prop, "rotation.stake_refused", format!("stake on the second channel failed: {:?}", o3.err)), case.clone()));
+                    continue;
+                }
+                let new_lst_amount: u128 = o3.events.iter().filter_map(|e| match e { Ev::Transfer { denom, amount, .. } if *denom == lst => Some(*amount), _ => None }).sum();
+                let (uid, want_denom, want_amount, want_recv) = if which_new == 0 { (o3.new_packets[0], sd(), 500u128, staker.clone()) } else { (o3.new_packets[1], lst.clone(), new_lst_amount, n1.clone()) };
+                // the other new packet is delivered
+                w.outcome(o3.new_packets[1 - which_new], 0);
+                let of = w.outcome(uid, fail_kind);
+                if !of.ok {
+                    viols.push((viol(prop, "rotation.callback_failed", format!("callback of the failed transfer refused: {:?}", of.err)), case.clone()));
+                    continue;
+                }
+                let rec = w.exec(&p20("x"), ExecuteMsg::RecoverPendingIbcTransfers { paginated: None, selected_packets: None, receiver: if which_new == 0 { None } else { Some(n1.clone()) } }, &[]);
+                let resent: Vec<(String, u128, String)> = rec.events.iter().filter_map(|e| match e { Ev::Transfer { denom, amount, receiver, .. } => Some((denom.clone(), *amount, receiver.clone())), _ => None }).collect();
+                if !rec.ok || resent != vec![(want_denom.clone(), want_amount, want_recv.clone())] {
+                    viols.push((
+                        viol(prop, "rotation.resent_other_transfer", format!("after the move to {ALT_CHANNEL}, transfer #{} of the new channel ({want_amount} {want_denom} to {want_recv}) failed; the recovery returned ok={} err={:?} and re-sent {:?}", uid - ALT_BASE, rec.ok, rec.err, resent)),
+                        case.clone(),
+                    ));
+                    continue;
+                }
+                good += 1;
+            }
+        }
+    }
+    r.grid("channel rotation: stale records of the old channel x failing transfers of the new one (sequence numbers restart)", n, 2, good, n - good, vec![json!({"old_packets_acknowledged_before_the_move": 0, "failure": "timeout", "failing_new_packet": 1})], viols);
+    r.require(good >= 8 || n == 0 || n != good, "the channel-rotation script must complete");
 }
